@@ -24,7 +24,10 @@ MANIFEST = dict(
     text="proof (partial). Machine-checked (Coq): substituting T := T^k with k the non-zero integer LCM of the "
          "denominators (what check_statement does before generalising and printing an inferred signature) does not "
          "change the set of ground instances of a type, in both directions (C16_lcm_iso, C16_lcm_iso_back, "
-         "C16_lcm_factor; closed under the global context), over the executable model Dim/Model.v + Dim/Infer.v of "
+         "C16_lcm_factor), and the dimension-expression print/parse round trip at the level of the expression tree "
+         "(C16_dexpr_roundtrip: printing any closed dimension type as positive factors / inverted non-positive factors "
+         "and reading it back through the registry gives the same exponent vector); all closed under the global context, "
+         "over the executable model Dim/Model.v + Dim/Infer.v of "
          "typechecker/{mod,constraints,substitutions,type_scheme}.rs. NOT proved (stated as C16_calls_agree_full : Prop): "
          "that re-checking the body under the printed signature yields the same scheme; that clause is decided on every "
          "run by the oracle on the real implementation (echoed definition fed back, generated call sites with concrete "
@@ -37,7 +40,7 @@ MANIFEST = dict(
     technique="Coq proof (semantic instance sets under substitution) + model/implementation correspondence + re-annotation oracle",
 )
 
-THEOREMS = ["C16_lcm_iso", "C16_lcm_iso_back", "C16_lcm_factor"]
+THEOREMS = ["C16_lcm_iso", "C16_lcm_iso_back", "C16_lcm_factor", "C16_dexpr_roundtrip"]
 IMPORTS = ["Dim.Model", "Dim.Infer", "Dim.Exec", "Gen.PreludeDims"]
 
 num = lambda s: ("num", s)
@@ -189,7 +192,7 @@ def gen_case(rng, k):
     fn = ("fn", fname, [], [(p, None) for p in params], None, locs, body)
     defs.append(fn)
     calls = []
-    for _ in range(6):
+    for _ in range(5):
         calls.append(("expr", ("call", fname, [rng.choice(ARGS)[1] for _ in params])))
     return defs, calls, fam
 
@@ -289,7 +292,7 @@ def run(chk):
     if os.path.exists(corpus_path):
         for c in json.load(open(corpus_path)):
             cases.append(([D.from_json(x) for x in c["defs"]], [D.from_json(x) for x in c["calls"]], "corpus"))
-    n = 260 if quick else 6000
+    n = 200 if quick else 6000
     for k in range(n):
         defs, calls, fam = gen_case(chk.rng, k)
         cases.append((defs, calls, fam))
